@@ -159,7 +159,7 @@ impl Report {
 	}
 
 	/// Write evidence, print KNOWN-FINDING / VIOLATION lines, return exit code.
-	/// `machinery_error` forces exit 2 (vacuity guard etc.).
+	/// `machinery_error` forces exit 2 (vacuity guard etc.) unless violations were reported (exit 1).
 	pub fn finish(mut self, machinery_error: Option<String>) -> i32 {
 		let known = load_known();
 		let findings = self.findings.lock().unwrap().clone();
@@ -221,6 +221,12 @@ impl Report {
 		)
 		.unwrap();
 		if let Some(e) = machinery_error {
+			if violations > 0 {
+				// reproduced violations stand on their own: a guard that trips next to them (counts
+				// shifted by the very behaviour that is reported) is a note, not the verdict
+				println!("NOTE property={} machinery guard also tripped: {}", self.property, e);
+				return 1;
+			}
 			println!("MACHINERY property={} {}", self.property, e);
 			return 2;
 		}
